@@ -91,6 +91,10 @@ func runC11(c *Ctx) {
 					if funcIs(calleeOf(info, r), pMigrate, "Executor", "Pending") && i == 0 {
 						okDef = true
 					}
+					// a module-local wrapper whose every return is Executor.Pending(…)
+					if wf := calleeOf(info, r); wf != nil && i == 0 && isPendingWrapper(c, wf, 2) {
+						okDef = true
+					}
 					// an immediately invoked literal whose every return is Executor.Pending(…)
 					if fl, isLit := ast.Unparen(r.Fun).(*ast.FuncLit); isLit && i == 0 {
 						rets, good := 0, 0
@@ -841,4 +845,36 @@ func checkPartialAnywhere(c *Ctx, rule string) {
 	if n == 0 {
 		c.Unresolved(rule, "Executor.Pending: the look-up of a file's revision among the applied revisions")
 	}
+}
+
+// isPendingWrapper reports whether fn is a module-local function all of whose
+// return statements return the result of Executor.Pending (or of another such wrapper).
+func isPendingWrapper(c *Ctx, fn *types.Func, depth int) bool {
+	if depth <= 0 || fn.Pkg() == nil || fn.Pkg().Path() != pMigrate {
+		return false
+	}
+	fi := c.FuncInfoOf(fn)
+	if fi == nil || fi.Decl.Body == nil {
+		return false
+	}
+	info := fi.Info()
+	rets, good := 0, 0
+	ast.Inspect(fi.Decl.Body, func(k ast.Node) bool {
+		if _, isLit := k.(*ast.FuncLit); isLit {
+			return false
+		}
+		if rs, ok := k.(*ast.ReturnStmt); ok {
+			rets++
+			if len(rs.Results) == 1 {
+				if cl, ok := ast.Unparen(rs.Results[0]).(*ast.CallExpr); ok {
+					g := calleeOf(info, cl)
+					if funcIs(g, pMigrate, "Executor", "Pending") || g != nil && g != fn && isPendingWrapper(c, g, depth-1) {
+						good++
+					}
+				}
+			}
+		}
+		return true
+	})
+	return rets > 0 && rets == good
 }
